@@ -145,7 +145,7 @@ Section Transforms.
     let newfirst := gemv (- n1) nonl tra n1 first in
     let newzeroth := j - dot tra (vadd newfirst first) in
     SGeneralQuadric abc def (vscale n2 newfirst) newzeroth.
-  (** [fixed = true] is the code as it stands since commit 9730bb5: the constant
+  (** [fixed = true] is the code as it stands since commit 564387d: the constant
       term subtracts first[i] * origin[i], as f(x - t) requires; [fixed = false]
       is the translator before the repair (2 * first[i] * origin[i]; see
       translate_sq_refuted / NOTES.md) *)
